@@ -1,4 +1,4 @@
-REPO_COMMITS = ["0e45a8e", "f51d74e", "e08c0a5", "7c6f8e4", "33cf0bf", "a187bb0", "a08c8ef", "a09d5b7", "0ea38a2", "2e5f874", "0a1ffee", "684d35f", "eafd2f0", "9d5bf99", "790fbd0", "21822bf", "d0c90be", "58c4540", "83e0612", "4573dc5"]
+REPO_COMMITS = ["0e45a8e", "f51d74e", "e08c0a5", "7c6f8e4", "33cf0bf", "a187bb0", "a08c8ef", "a09d5b7", "0ea38a2", "2e5f874", "0a1ffee", "684d35f", "eafd2f0", "9d5bf99", "790fbd0", "21822bf", "d0c90be", "58c4540", "83e0612", "4573dc5", "0e8a1d4"]
 NOT_APPLICABLE = {}
 CHECKS = {
  "C05": dict(
@@ -45,4 +45,8 @@ CHECKS = {
   text="Held-on-what-was-observed: each seeded table (raw random cell bytes, dtype zoo, hostile field names and header text) is written through one of five write routes, the file itself is inspected (bytes after the first line that is exactly END + blank line must equal the array buffer), and it is read back through up to twelve read routes including the cross route (written by sfile, read by Recfile given dtype, offset and row count); every result is compared on dtype structure (names, base type, byte order, sub-array shape) and raw bytes, every returned header on user keys (value and type), _SIZE and a _DTYPE that rebuilds the dtype. The workload is repeated on the ASan+UBSan build (fwrite/fread are intercepted).",
   note="Trusts numpy tobytes/dtype comparison. >= 1 row, packed dtypes, finite header literals.",
   technique="round-trip oracle on observed executions of every entry point plus file-level byte oracle; ASan+UBSan replay"),
+ "C04": dict(
+  text="Held-on-what-was-observed: seeded tables (integer extremes, 17-digit floats over all decades plus subnormals/NaN/inf, hostile ASCII strings, every adjacent pair of field kinds including across the row boundary) are written as delimited text through four routes with six delimiters and read back; every cell is compared (integers and strings exactly, floats to one unit in the 16th/7th significant digit in long double), names/shapes/native byte order, the header's _DELIM and byte-order-free _DTYPE, and the newline count of the file body. Repeated on the ASan+UBSan build (fscanf writes into the output array at per-field offsets).",
+  note="Strings without newline and bytes >= 0x80; doubles whose 16-digit rounding overflows are not generated; UBSan's alignment check is off (packed records are unaligned by construction).",
+  technique="round-trip oracle on observed executions with per-cell tolerance model; ASan+UBSan replay"),
 }
